@@ -14,7 +14,7 @@ RULE = (
 ASSUMPTIONS = ["fastcache is not installed in this image, so the cachedsearch wrappers are pass-through (stated, not assumed away: they are still compared call by call)",
                "names/reprs in CountError cases are digit-free so the numbers in the message are unambiguous"]
 GATES = ["mon.C14.findall", "mon.C14.find", "mon.C14.by_attr", "mon.C14.cached", "C14.bound_equal_count", "C14.counterror_min", "C14.counterror_max",
-         "C14.attr_missing_skipped", "C14.find_none", "C14.find_one", "C14.find_many", "C14.none_value_with_missing_attr", "C14.unhashable_value", "C14.after_mutation", "C14.variant.getattr", "C14.variant.property", "C14.variant.valeq", "C14.variant.slots", "C14.variant.unhashable", "C14.variant.tuplename"]
+         "C14.attr_missing_skipped", "C14.find_none", "C14.find_one", "C14.find_many", "C14.none_value_with_missing_attr", "C14.unhashable_value", "C14.after_mutation", "C14.variant.getattr", "C14.variant.property", "C14.variant.valeq", "C14.variant.slots", "C14.variant.unhashable", "C14.variant.tuplename", "mon.C14.callbacks_like_preorderiter", "C14.raising_filter_propagates"]
 
 
 def plan(tier, seed, jobs):
@@ -191,6 +191,45 @@ def check_tree(ctx, nodes, tags, ch, s, case, bounds_all=True, rng=None):
                 good = r[0] == "exc" and type(r[1]) is CountError
             if not good:
                 ctx.violation("C14/find_by_attr", "find_by_attr", dict(case, **cfg), expected=exp, observed=repr(r)[:200])
+                return False
+    # "findall returns exactly what PreOrderIter yields for the same arguments" - also when the caller's callbacks raise
+    # (a filter that reads an attribute only some nodes carry) or keep state (a visit budget shared by stop and filter_)
+    from anytree import PreOrderIter
+
+    def natural(nd):
+        return nd.tag == "u"  # AttributeError on nodes without the attribute
+
+    def budget_pair(limit):
+        seen = {"n": 0}
+
+        def flt(nd):
+            seen["n"] += 1
+            return True
+
+        def stp(nd):
+            return seen["n"] >= limit
+
+        return flt, stp
+
+    for what in ("raising-filter", "budget-2", "budget-4"):
+        for ml in (None, 1, 2):
+            outs = []
+            for fn in (lambda kw: tuple(PreOrderIter(nodes[s], **kw)), lambda kw: search.findall(nodes[s], **kw), lambda kw: cachedsearch.findall(nodes[s], **kw)):
+                kw = {}
+                if what == "raising-filter":
+                    kw["filter_"] = natural
+                else:
+                    kw["filter_"], kw["stop"] = budget_pair(int(what[-1]))
+                if ml is not None:
+                    kw["maxlevel"] = ml
+                r = call(fn, kw)
+                outs.append(("ok", m(r[1])) if r[0] == "ok" else ("exc", type(r[1]).__name__))
+            ctx.count("mon.C14.callbacks_like_preorderiter")
+            if outs[0][0] == "exc":
+                ctx.count("C14.raising_filter_propagates")
+            if outs[1] != outs[0] or outs[2] != outs[0]:
+                ctx.violation("C14/findall/differs-from-PreOrderIter/%s" % what, "reference-preorder", dict(case, start=s, callbacks=what, maxlevel=ml),
+                              expected={"PreOrderIter": outs[0]}, observed={"search.findall": outs[1], "cachedsearch.findall": outs[2]})
                 return False
     # default attribute name is "name"; positional forwarding through the cached wrappers
     r1 = call(search.findall_by_attr, nodes[s], "x", "tag", 2, None, None)
